@@ -251,6 +251,58 @@ func (in *Interp) native(fv *FuncV, args []Value, at token.Pos) []Value {
 			ss = append(ss, str(a))
 		}
 		return []Value{filepath.Join(ss...)}
+	case "slices.ContainsFunc", "slices.IndexFunc":
+		idx := int64(-1)
+		if s, ok := args[0].(*SliceV); ok {
+			pred := args[1].(*FuncV)
+			for i, c := range s.E {
+				if r := in.apply(pred, []Value{c.V}, at); len(r) == 1 && r[0] == true {
+					idx = int64(i)
+					break
+				}
+			}
+		} else if args[0] != nil {
+			panic(evalErr("%s of %T", name, args[0]))
+		}
+		if name == "slices.ContainsFunc" {
+			return []Value{idx >= 0}
+		}
+		return []Value{idx}
+	case "slices.Contains", "slices.Index":
+		idx := int64(-1)
+		if s, ok := args[0].(*SliceV); ok {
+			for i, c := range s.E {
+				if c.V == args[1] {
+					idx = int64(i)
+					break
+				}
+			}
+		} else if args[0] != nil {
+			panic(evalErr("%s of %T", name, args[0]))
+		}
+		if name == "slices.Contains" {
+			return []Value{idx >= 0}
+		}
+		return []Value{idx}
+	case "slices.Sort":
+		if s, ok := args[0].(*SliceV); ok {
+			allStr := true
+			for _, c := range s.E {
+				if _, isS := c.V.(string); !isS {
+					allStr = false
+				}
+			}
+			if allStr {
+				ss := strSlice(s)
+				sort.Strings(ss)
+				for i := range ss {
+					s.E[i].V = ss[i]
+				}
+				return nil
+			}
+			panic(evalErr("slices.Sort of a non-string slice"))
+		}
+		return nil
 	case "sort.Strings":
 		if s, ok := args[0].(*SliceV); ok {
 			ss := strSlice(s)
